@@ -129,7 +129,8 @@ ASSUMPTIONS = [
     "the registry only grows or replaces (there is no API to forget a type)",
 ]
 RULE = ("corpus, then a fixed family (every leaf, every class empty / holding every leaf kind, list nestings to depth 6, "
-        "every registered type, every class in one list, string leaves whose content is JSON text (documents of every JSON type, "
+        "every registered type, every class in one list, serialisable objects that are also ITERABLE (container-like / one-shot iterator / "
+        "unpacking-support serializer classes and registered types, empty and non-empty, top level / list element / field value / nested), string leaves whose content is JSON text (documents of every JSON type, "
         "with/without surrounding blanks, compact/indented, the dumped form of every class of the zoo, near misses) at top level / "
         "as list element / as field value / as registered payload, classes sharing one __name__ across three modules side by side / "
         "nested in every order, DAG-shaped values in which one list / one object is referenced from several places, registry "
@@ -265,8 +266,64 @@ class Cat(Animal):
         return data
 
 
-GENERIC = [Node, NodeA, NodeAA, NodeAAA, NodeAAAA, NodeB, NodeBA, NodeM]
-FIXED = [Animal, Dog, Bulldog, Cat]
+# serialisable objects that are ALSO iterable (container-like objects; `x, y = v` unpacking support) -------------------
+# Being iterable is not part of the JSON convention: an object with a serializer of its own is written through that
+# serializer — tag and named fields — whatever other protocols it implements (`__iter__`, `__len__`, `__getitem__`).
+# The model does not see these protocols at all; the classes below are ordinary members of the zoo for it.
+
+
+class Bag(Node):  # generic container-like object: iterates over its items (field values), sized, indexable
+    def __iter__(self):
+        return iter(list(self.fields.values()))
+
+    def __len__(self):
+        return len(self.fields)
+
+    def __getitem__(self, i):
+        return list(self.fields.values())[i]
+
+
+class IterMixin:  # the iteration protocol comes from a mixin that precedes the serializer in the MRO
+    def __iter__(self):
+        return iter(sorted(self.fields))
+
+
+class KeyedBag(IterMixin, NodeAA):  # mapping-like without being a Mapping: iterates over its field NAMES
+    pass
+
+
+class Stream(NodeB):  # a one-shot iterator object (`__next__`), always exhausted at once
+    def __iter__(self):
+        return self
+
+    def __next__(self):
+        raise StopIteration
+
+
+@dataclass(eq=False)
+class Pair(Animal):  # dataclass style with unpacking support: `name, age = pair`
+    def __iter__(self):
+        yield self.name
+        yield self.age
+
+
+@dataclass(eq=False)
+class Polyline(Pair):  # container-like dataclass: iterates over its points only, has other fields as well
+    points: Any = None
+
+    def to_json(self):
+        data = super().to_json()
+        data.update({"points": to_json(self.points)})
+        return data
+
+    def __iter__(self):
+        return iter(self.points if type(self.points) is list else [])
+
+
+ITERABLE_SER = [Bag, KeyedBag, Stream, Pair, Polyline]
+
+GENERIC = [Node, NodeA, NodeAA, NodeAAA, NodeAAAA, NodeB, NodeBA, NodeM, Bag, KeyedBag, Stream]
+FIXED = [Animal, Dog, Bulldog, Cat, Pair, Polyline]
 SER_CLASSES = GENERIC + FIXED
 
 
@@ -302,6 +359,36 @@ class Money2(Money):  # the registry is keyed by exact type: a subclass needs (a
     pass
 
 
+class Vec:  # a registered third-party vector type that supports unpacking (`x, y = v`): iterable, sized, indexable
+    def __init__(self, s: str):
+        self.s = s
+
+    def _parts(self):
+        return [p for p in self.s.split(",") if p]
+
+    def __iter__(self):
+        return iter(self._parts())
+
+    def __len__(self):
+        return len(self._parts())
+
+    def __getitem__(self, i):
+        return self._parts()[i]
+
+    def __eq__(self, other):
+        return type(self) is type(other) and self.s == other.s
+
+    __hash__ = None
+
+
+class Chars(Money):  # a registered subclass of a registered type that iterates over the characters of its payload
+    def __iter__(self):
+        return iter(self.s)
+
+
+ITERABLE_EXT = [Vec, Chars]
+
+
 def _mk_ser(cls, payload):
     def ser(obj):
         return {JSON_TYPE_NAME: cls.__module__ + "." + cls.__name__, "value": payload(obj)}
@@ -327,6 +414,8 @@ EXT: Dict[type, Tuple[Any, Any]] = {
     Fraction: (str, Fraction),
     Money: (lambda o: o.s, Money),
     Money2: (lambda o: o.s, Money2),
+    Vec: (lambda o: o.s, Vec),
+    Chars: (lambda o: o.s, Chars),
 }
 for _t, (_p, _b) in EXT.items():
     if _t is not uuid.UUID:
@@ -436,7 +525,7 @@ SER_CLASSES = GENERIC + FIXED
 for _t in (MOD_A.Money, MOD_B.Money):
     EXT[_t] = ((lambda o: o.s), _t)
     JSONSerializableTypeRegistry().register(_t, _mk_ser(_t, EXT[_t][0]), _mk_deser(_t, _t))
-EXT_MONEY = [Money, Money2, MOD_A.Money, MOD_B.Money]  # registered types whose deserializer accepts any string
+EXT_MONEY = [Money, Money2, MOD_A.Money, MOD_B.Money, Vec, Chars]  # registered types whose deserializer accepts any string
 
 # groups of distinct classes sharing one __name__
 SAME_NAME = [
@@ -1016,7 +1105,7 @@ def gen_ext(rng):
         return Fraction(rng.randrange(-50, 50), rng.randrange(1, 40))
     if k == 2:
         return Money(rng.choice(STRS))
-    return rng.choice(EXT_MONEY[1:])(rng.choice(["", "12.50 EUR", "ü"]))
+    return rng.choice(EXT_MONEY[1:])(rng.choice(["", "12.50 EUR", "ü", "0.5,-2.0", "1,2,3"]))
 
 
 def gen_value(rng, depth: int, pool: Optional[list] = None, extra=(), share: float = 0.12, jtext: float = 0.3):
@@ -1100,10 +1189,33 @@ def fixed_family() -> List[Case]:
         out.append(make_case(v, ("object-nesting",), "exhaustive"))
     out.append(make_case([cls() if cls in GENERIC else _mk(cls, 1) for cls in SER_CLASSES] + exts, ("all-classes",), "exhaustive"))
     out.append(make_case([[NodeA(x=[Dog("d", [Cat(None, 1.5, [])], NodeM())])], []], ("mixed",), "exhaustive"))
+    out += iterable_family()
     out += same_name_family()
     out += shared_family()
     out += history_family()
     out += json_text_family()
+    return out
+
+
+def iterable_family() -> List[Case]:
+    """objects with a serializer of their own that are ALSO iterable (container-like serializer classes, one-shot
+    iterators, dataclasses / registered vector types with unpacking support): empty and non-empty, at top level, as
+    list element, as field value of a generic / dataclass-style object, nested in each other, shared"""
+    out = []
+    tag = ("iterable-object",)
+    items = [[], [1], [1.5, "a"], [None, [2]]]
+    objs = []
+    for it in items:
+        objs += [Bag(**{f"k{i}": x for i, x in enumerate(it)}), KeyedBag(**{f"k{i}": x for i, x in enumerate(it)}),
+                 Stream(**{f"k{i}": x for i, x in enumerate(it)}), Polyline("p", len(it), list(it))]
+    objs += [Pair(0.5, -2.0), Pair("x", None), Polyline("p", 0, None), Polyline([1], [2], [Pair(1, 2), Pair(3, 4)]),
+             Vec(""), Vec("0.5,-2.0"), Vec("1,2,3"), Chars(""), Chars("ab"), Bag(a=Bag(b=Vec("1,2"))), Bag(a=[Pair(1, [Chars("c")])])]
+    for v in objs:
+        out.append(make_case(v, tag, "exhaustive"))
+        out.append(make_case([v], tag, "exhaustive"))
+        out.append(make_case([0, [v, None], v], tag, "exhaustive"))
+        out.append(make_case(NodeA(a=v), tag, "exhaustive"))
+        out.append(make_case(Dog("d", v, [v]), tag, "exhaustive"))
     return out
 
 
